@@ -1,5 +1,5 @@
 //! Data-driven channel scenario: a few threads, each a short list of steps on its handles.
-use crate::chan::{make, Flavour, Rx, Tx};
+use crate::chan::{make, Flavour, Mix, Rx, Tx};
 use crate::oracle;
 use crate::rt::{self, Id, Op, Res, P};
 
@@ -13,8 +13,18 @@ pub enum Step {
     TryRecv,
     RecvT0,
     RecvPollDrop,
+    /// blocking / awaited recv_batch(max)
+    RecvBatch(usize),
+    TryRecvBatch(usize),
+    /// recv_timeout(1 h) (hook H7: the timed park is an untimed loom park)
+    RecvTLong,
     /// blocking / async recv until Disconnected
     Drain,
+    /// blocking / awaited recv_batch(max) until Disconnected
+    DrainBatch(usize),
+    /// explicit close() of the handle (it is dropped at the end of the thread's program)
+    CloseTx,
+    CloseRx,
     /// try_recv + yield until Disconnected
     DrainTry,
     DropRx,
@@ -35,6 +45,8 @@ pub struct ChanScen {
     /// Some(0) rendezvous, None unbounded
     pub cap: Option<usize>,
     pub asyn: bool,
+    /// one side converted with to_async() (sync and async handles mixed on one channel)
+    pub mix: Mix,
     pub n_tx: u8,
     pub n_rx: u8,
     /// threads[0] is the model's main thread
@@ -102,6 +114,51 @@ fn run_thread(t: u8, prog: ThreadProg, mut tx: Option<Box<dyn Tx>>, mut rx: Opti
                 rt::log_call(t, rh, &Op::RecvPollDrop);
                 let res = r.recv_poll_drop();
                 rt::log_ret(t, rh, &Op::RecvPollDrop, res, true);
+            }
+            Step::RecvBatch(n) => {
+                let r = rx.as_mut().expect("rx");
+                let op = Op::RecvBatch(n);
+                rt::log_call(t, rh, &op);
+                let res = r.recv_batch(n);
+                rt::log_ret(t, rh, &op, res, true);
+            }
+            Step::TryRecvBatch(n) => {
+                let r = rx.as_mut().expect("rx");
+                let op = Op::TryRecvBatch(n);
+                rt::log_call(t, rh, &op);
+                let res = r.try_recv_batch(n);
+                rt::log_ret(t, rh, &op, res, true);
+            }
+            Step::RecvTLong => {
+                let r = rx.as_mut().expect("rx");
+                rt::log_call(t, rh, &Op::RecvTLong);
+                let res = r.recv_tlong();
+                rt::log_ret(t, rh, &Op::RecvTLong, res, true);
+            }
+            Step::DrainBatch(n) => {
+                let r = rx.as_mut().expect("rx");
+                let op = Op::RecvBatch(n);
+                for _ in 0..MAX_DRAIN {
+                    rt::log_call(t, rh, &op);
+                    let res = r.recv_batch(n);
+                    let done = res == Res::Disc;
+                    rt::log_ret(t, rh, &op, res, true);
+                    if done {
+                        break;
+                    }
+                }
+            }
+            Step::CloseTx => {
+                let s = tx.as_mut().expect("tx");
+                rt::log_call(t, th, &Op::CloseTx);
+                let res = s.close_tx();
+                rt::log_ret(t, th, &Op::CloseTx, res, true);
+            }
+            Step::CloseRx => {
+                let r = rx.as_mut().expect("rx");
+                rt::log_call(t, rh, &Op::CloseRx);
+                let res = r.close_rx();
+                rt::log_ret(t, rh, &Op::CloseRx, res, true);
             }
             Step::Drain => {
                 let r = rx.as_mut().expect("rx");
@@ -172,7 +229,7 @@ fn join_all(t: u8, joins: &mut Vec<loom::thread::JoinHandle<()>>) {
 
 /// one execution of the scenario (body of the loom model closure)
 pub fn run_once(sc: &ChanScen, shape: &str) {
-    let (tx0, rx0) = make(sc.flavour, sc.cap, sc.asyn);
+    let (tx0, rx0) = make(sc.flavour, sc.cap, sc.asyn, sc.mix);
     let mut txs: Vec<Option<Box<dyn Tx>>> = Vec::new();
     let mut rxs: Vec<Option<Box<dyn Rx>>> = Vec::new();
     for _ in 1..sc.n_tx {
